@@ -147,6 +147,12 @@ def grid(params: Dict) -> nx.MultiDiGraph:
             sp = rnd.choice(speeds)
             g.add_edge(u, t, length=d, speed_kmph=sp)
             g.add_edge(t, u, length=d, speed_kmph=sp)
+    p_preset = float(params.get("preset_time", 0.0))
+    if p_preset > 0:
+        # network files in which some links state their own travel time (length over speed) and the others leave it to the loader
+        for a, b, d in g.edges(data=True):
+            if "speed_kmph" in d and rnd.random() < p_preset:
+                d["travel_time"] = d["length"] / 1000.0 / d["speed_kmph"] * 3600.0
     if params.get("latlon_keys"):
         # junction coordinates under "lat"/"lon" instead of "y"/"x" (the loader reads either)
         for _, d in g.nodes(data=True):
